@@ -212,7 +212,7 @@ def run(tier):
     run.assumptions = [
         'lexeme is constrained by the live lexer rule of its kind (re.fullmatch of the rule pattern) or by the reference reader accepting it as exactly one literal',
         'a quoted lexeme that the reference reader does not read as exactly one complete literal (ambiguous back-slash/quote pairing) is outside the claim',
-        'which rule of the master regex takes a lexeme in context is decided in C01/C02 (LEXZ3), not here',
+        'which rule of the master regex takes a lexeme: for identifier-shaped words the identifier-word part (native over a boundary alphabet + z3 candidates for non-keyword rules before ID); for printed atoms C01 (LEXZ3)',
         'float literals: conversion is CPython float(); not reasoned about symbolically',
     ]
     ch_obligations(run, HARNESS, specs(tier), cond_to=100 if tier == 'quick' else 600)
@@ -221,6 +221,14 @@ def run(tier):
     ch_obligations(run, print_side()[0], print_side()[1], cond_to=150 if tier == 'quick' else 900)
     from harness import C01
     C01.ident_boundary(run, name='print-side:ident_atom[native boundary alphabet]')
+    # which rule of the live rule list takes an identifier-shaped word
+    try:
+        from harness import c04words
+        c04words.add(run, tier)
+        run.functions.append('<Lexer>.tokenize on identifier-shaped words (live rule order, look-aheads, word boundaries)')
+    except Exception as e:  # noqa
+        import traceback
+        run.error('identifier-word part crashed: %r %s' % (e, traceback.format_exc()[-300:]))
     run.finish()
 
 
@@ -233,6 +241,9 @@ def print_side():
 def replay(path):
     r = json.load(open(path))
     print(json.dumps(r, indent=1))
+    if r['replay'].get('id_word'):
+        from harness import c04words
+        return c04words.replay(r)
     h = r['replay']['harness']
     for s in specs('quick') + print_side()[1]:
         if s['fn'] == h or s.get('name') == h:
